@@ -207,7 +207,9 @@ def main():
                 nloops = len([k for k in (unit.CONTRACTS.get(h['fn'], {}).get('loops') or {})])
                 if nloops:
                     have = set(re.sub(r'\.\d+$', '', x['id']).split('.')[-1] for x in r['results'])
-                    for need in ('loop_invariant_base', 'loop_invariant_step', 'loop_decreases'):
+                    lps = (unit.CONTRACTS.get(h['fn'], {}).get('loops') or {}).values()
+                    needs = ['loop_invariant_base', 'loop_invariant_step'] + (['loop_decreases'] if any(l.get('decreases') for l in lps) else [])
+                    for need in needs:
                         if need not in have:
                             undecided.append('GUARD: harness %s: no %s obligation generated (loop contract silently dropped?)' % (h['name'], need))
             # verdicts
